@@ -419,7 +419,7 @@ def _gen_build(r, g, class_default):
     api = 'each'
     if not any(src.get('fails') for src in sources) and r.random() < 0.2:
         # the same sources handed over in one call, safety given per source or (when they all agree) once for all
-        api = 'multi_scalar' if len({src['safe'] for src in sources}) == 1 and r.random() < 0.5 else 'multi_list'
+        api = 'multi_scalar' if len({src['safe'] for src in sources}) == 1 and r.random() < 0.5 else r.choice(['multi_list', 'multi_tuple'])
     # how the merged tree is evaluated: Config(tree), a pickled / deep-copied tree, or an evaluation context used directly
     route = r.choice(['config'] * 5 + ['pickle', 'deepcopy', 'evalctx', 'evalctx', 'dump_reparse', 'dump_reparse'])
     if route == 'dump_reparse' and (not class_default or any(src['taint'] != 'S' for src in sources)):
@@ -534,6 +534,8 @@ def _client(th, out):
                     raws = [False if 'path' in src else None if 'stream' in src else True for src in bd['sources']]
                     names = [None if 'path' in src else src.get('filename') for src in bd['sources']]
                     safes = [src['safe'] for src in bd['sources']]
+                    if bd['api'] == 'multi_tuple':      # any sequence will do for "one value per source"
+                        raws, names, safes = tuple(raws), tuple(names), tuple(safes)
                     b.add_multiple_sources(*objs, raw_yaml=raws, filename=names, safe=(safes[0] if bd['api'] == 'multi_scalar' else safes))
                 for si, src in enumerate(bd['sources'] if bd.get('api', 'each') == 'each' else []):
                     kw = {}
